@@ -33,9 +33,13 @@ package mbapp
 
 // ---- swarm: dispatch of an incoming packet ------------------------------------------------------
 
+//@ type Swarm
+//@   invariant asker != nil && mtu >= 0 && fragLayer != nil && fragLayer.collectors != nil
+//@   invariant inv(self.tells) && inv(self.asks)
+
 //@ func (*Swarm).handleMessage
 //@   noframe
-//@   requires s.fragLayer != nil && s.fragLayer.collectors != nil && mapvals_inv(s.fragLayer.collectors)
+//@   requires s != nil && inv(s) && mapvals_inv(s.fragLayer.collectors)
 //@   before call (*fragLayer).handlePart:
 //@     assert ifaceval(arg1) == src
 //@     assert arg2.Counter == be32at(hdr, 8) && arg2.OriginTime == be32at(hdr, 4)
@@ -44,7 +48,7 @@ package mbapp
 //@
 //@ func (*Swarm).handleMessage$1
 //@   inline
-//@   requires len(hdr) == 24 && s != nil
+//@   requires len(hdr) == 24 && s != nil && inv(s)
 //@   before call (*Swarm).handleAskReply:
 //@     assert arg2 == src && arg3 == dst && arg4 == gid && arg6 == buf && arg5 == hdr[3]
 //@   before call (*Swarm).handleAskRequest:
@@ -54,6 +58,7 @@ package mbapp
 //@
 //@ func (*Swarm).handleTell
 //@   noframe
+//@   requires s != nil && inv(s)
 //@   before call (*TellHub).Deliver:
 //@     assert arg2.Src == src && arg2.Dst == dst && arg2.Payload == body
 
